@@ -62,7 +62,7 @@ _SPEC_ASSUMPTIONS = [
     "content.Successors = the generator's edge list (parameter g_succ); standing hypothesis as in C01: during the call the destination is written only by the call itself and never deletes, the source is immutable; mt_consistent (digest-keyed destinations) is a hypothesis of the push-ordering / completion theorems, not of C02_closed_always; the generators of this part produce no two nodes with one digest",
     "user callbacks return nil or an ordinary error: a user PreCopy answering oras.SkipNode (by design: the node is marked done WITHOUT being transferred, so a caller can make the destination non-closed on purpose) is outside the model and never generated; prepareCopy's own internal use of SkipNode (ReferencePusher root) is modelled",
     "a failing dst.Push stores the content only when the fault is injected after the real push (stored flag of PuX); a real store failing on its own is assumed not to have stored the content",
-    "faults at registry.Mounter.Mount and at MountFrom/OnMounted are not injected (the model has no fault event for them; dst.Tag of Copy has one: TagX); 'bounded time' is the protocol part's theorem (C02_terminates) plus the 20 s watchdog here; goroutine scheduling: interleavings of visible events are quantified over, internal races are exercised (free-running goroutines with PRNG latencies and slow nodes, PRNG-controlled schedules under testing/synctest with slow nodes released last), not enumerated",
+    "registry.Mounter destinations are exercised through an in-harness Mounter wrapper (PRNG decides whether a candidate repository has the blob), with faults at Mount (before / after the blob was mounted or uploaded: MtX), MountFrom, OnMounted and at PreCopy / src.Fetch inside Mount's getContent; not combined with ReferencePusher destinations (as in C01); 'bounded time' is the protocol part's theorem (C02_terminates) plus the 20 s watchdog here; goroutine scheduling: interleavings of visible events are quantified over, internal races are exercised (free-running goroutines with PRNG latencies and slow nodes, PRNG-controlled schedules under testing/synctest with slow nodes released last), not enumerated",
 ]
 
 CONFIG = {
@@ -81,8 +81,8 @@ CONFIG = {
     "timeout_search": 1200,
     "parts": [PROTO],
     "assumptions": _SPEC_ASSUMPTIONS + PROTO["assumptions"],
-    "level_text": "SPEC-LEVEL PART: Coq theorems over every trace accepted by the fault-extended copyGraph transition system (all graphs, all link-closed initial destinations, all K, CopyGraph / Copy into Tagger and ReferencePusher destinations / ExtendedCopyGraph as a virtual super-root, all interleavings, any number of faults at Exists / Fetch / Push / Tag (before or after the side effect) / callbacks / prologue, cancellation at any point, every prefix): the destination is link-closed after every event (C02_closed_always, C02_closed_every_prefix); when a push completes -- also one that then reports an error -- every successor of the node is present (C02_push_after_successors); a fault or cancellation anywhere excludes the successful return and taint is never lost (C02_fault_surfaces, C02_fault_taints, C02_taint_persists, C02_tainted_only_error_return); a successful call holds everything reachable from all its roots (C02_success_complete) and so does any successful rerun after any failed / cancelled / abandoned first call (C02_retry_completes; C02_retry_completes_C01 states it with the rerun as a run of C01's fault-free system, to which C01_closure applies); without fault events the extended system accepts exactly the traces of C01/C04's system with the same final state (C02_conservative_over_CopySpec); Examples: a shared-successor DAG whose push fails after storing + rerun, an ExtendedCopyGraph run cancelled in flight + rerun, and the two traces of the classic bugs (parent of a failed node goes on; success after cancellation) are rejected. Tied to the code by trace acceptance of recorded faulty calls and of their fault-free reruns on random and shared-successor DAGs x API x K x stores x fault plans x schedules, and by an independent oracle: destination monitor at every completed push (generator's edge list), closure after every outcome, fired fault => error, watchdog, goroutines back to baseline, rerun completes (presence + bytes + tag). || " + PROTO["level_text"],
-    "level_note": "spec-level part: the error handling of copyGraph.fn (Dead phase, done channel not closed) is hand-modelled and tied by trace acceptance + oracle; no fault events for Mount / MountFrom; stores exercised: memory and OCI layout as source and destination. || " + PROTO["level_note"],
+    "level_text": "SPEC-LEVEL PART: Coq theorems over every trace accepted by the fault-extended copyGraph transition system (all graphs, all link-closed initial destinations, all K, CopyGraph / Copy into Tagger and ReferencePusher destinations / ExtendedCopyGraph as a virtual super-root, all interleavings, any number of faults at Exists / Fetch / Push / Tag / Mount (before or after the side effect) / callbacks incl. MountFrom and OnMounted / prologue, cancellation at any point, every prefix): the destination is link-closed after every event (C02_closed_always, C02_closed_every_prefix); when a push completes -- also one that then reports an error -- every successor of the node is present (C02_push_after_successors); a fault or cancellation anywhere excludes the successful return and taint is never lost (C02_fault_surfaces, C02_fault_taints, C02_taint_persists, C02_tainted_only_error_return); a successful call holds everything reachable from all its roots (C02_success_complete) and so does any successful rerun after any failed / cancelled / abandoned first call (C02_retry_completes; C02_retry_completes_C01 states it with the rerun as a run of C01's fault-free system, to which C01_closure applies); without fault events the extended system accepts exactly the traces of C01/C04's system with the same final state (C02_conservative_over_CopySpec); Examples: a shared-successor DAG whose push fails after storing + rerun, an ExtendedCopyGraph run cancelled in flight + rerun, and the two traces of the classic bugs (parent of a failed node goes on; success after cancellation) are rejected. ExtendedCopyGraph is covered under both views of its fan-out (virtual super-root ext=true; CopySpec's c_xroots with ext=false): every theorem holds for both, the model runner requires the same verdict from both on every recorded trace, and a sample of cases is re-evaluated inside Coq with vm_compute (post_model hook). Tied to the code by trace acceptance of recorded faulty calls and of their fault-free reruns on random and shared-successor DAGs x API x K x stores x fault plans x schedules, and by an independent oracle: destination monitor at every completed push (generator's edge list), closure after every outcome, fired fault => error, watchdog, goroutines back to baseline, rerun completes (presence + bytes + tag). || " + PROTO["level_text"],
+    "level_note": "spec-level part: the error handling of copyGraph.fn (Dead phase, done channel not closed) is hand-modelled and tied by trace acceptance + oracle; Mounter only through the in-harness wrapper, not combined with ReferencePusher; stores exercised: memory and OCI layout as source and destination. || " + PROTO["level_note"],
     "technique": "machine-checked proof in Coq (the C01 invariant of the per-node-phase transition system extended to fault / cancel events; taint monotonicity; closure at every prefix) + constants regenerated from copy.go + trace-acceptance correspondence of faulty runs and reruns + independent monitor oracle || " + PROTO["technique"],
     "explanation": "spec part: every recorded trace of a faulty CopyGraph/Copy/ExtendedCopyGraph call and of its fault-free rerun must be a run of Model/CopyFault.v with the same return value, destination content and tag; the oracle (destination monitor, closure, fault surfaces, hang, leak, rerun completes) uses the generator's ground truth only || protocol part: " + PROTO["explanation"],
 }
